@@ -35,8 +35,19 @@ META = {
     "explanation": "lag invariant proved for the loop model; implementation traces validated against it; memory measured",
 }
 
-LAG_EXPECTED = {"json": 0, "msgpack": 0, "yaml": 1}     # what the model predicts with need k = end of k (JSON, MessagePack) / start of k+1 (YAML)
+LAG_EXPECTED = {"json": 0, "msgpack": 0, "yaml": 1, "yaml16": 1, "yaml32": 1}     # what the model predicts with need k = end of k (JSON, MessagePack) / start of k+1 (YAML)
 LAG_BOUND = 2                                             # what the property demands
+KNOWN_REENC = "K-C05-utf16-yaml-reencoder-fills-buffer"
+
+
+def reencoder_lag_allowance(req):
+    """Known class: UTF-16/32 YAML from a reader.  The re-encoder fills libyaml's 16 KiB request before returning, so up to
+    16384 / (UTF-8 size of a document) + 1 delivered documents are held back.  None outside the class."""
+    unit = {"yaml16": 2, "yaml32": 4}.get(req["format"])
+    if not unit:
+        return None
+    size = max(req["size"], 48 * unit)     # the generator's minimum document size
+    return 16384 // max(1, size // unit) + 2
 
 
 def run(outcome, tier, seed):
@@ -45,9 +56,11 @@ def run(outcome, tier, seed):
     reqs = []
     ns = [30, 300, 3000] + ([20000, 200000] if tier == "thorough" else [20000])
     sizes = [48, 200, 5000] + ([70000, 262144] if tier == "thorough" else [70000])
-    for fmt in ("json", "msgpack", "yaml"):
+    for fmt in ("json", "msgpack", "yaml", "yaml16", "yaml32"):
         for to in ("json", "msgpack", "yaml"):
             if tier == "quick" and to == "msgpack" and fmt != "json":
+                continue
+            if fmt in ("yaml16", "yaml32") and to != "json" and tier == "quick":
                 continue
             for n in ns:
                 for size in sizes:
@@ -61,7 +74,7 @@ def run(outcome, tier, seed):
                                          "packet": packet, "detect": detect})
     # memory: the same stream at N and 4N
     mem = []
-    for fmt in ("json", "msgpack", "yaml"):
+    for fmt in ("json", "msgpack", "yaml", "yaml16", "yaml32"):
         for detect in (False, True):
             for size in (64, 4000, 100000):
                 n = 4000 if size < 1000 else (600 if size < 50000 else 60)
@@ -81,10 +94,16 @@ def run(outcome, tier, seed):
         lag = r["max_lag_docs"]
         key = req["format"]
         lags[key] = max(lags.get(key, 0), lag)
-        if lag > LAG_BOUND:
+        allow = reencoder_lag_allowance(req)
+        if lag > LAG_BOUND and allow is not None and lag <= allow and any(k["id"] == KNOWN_REENC for k in common.load_known("C05")):
+            if not any(h[0] == KNOWN_REENC for h in outcome.known_hits):
+                outcome.known_hits.append((KNOWN_REENC, "%s stream of %d documents of %d bytes, packets of %d: %d completely delivered documents held "
+                                           "back at a read() call (the property allows 2; the same text in UTF-8 shows 1)"
+                                           % (req["format"], req["n"], req["size"], req["packet"], lag)))
+        elif lag > LAG_BOUND:
             outcome.oracle_failures.append(dict(info, what="when asked for more input xt was holding back %d completely delivered documents "
                                                 "(the property allows 2)" % lag))
-        elif lag > LAG_EXPECTED[key]:
+        elif lag > LAG_EXPECTED[key] and allow is None:
             outcome.disagreements.append(dict(info, what="observed lag %d exceeds what the loop model predicts for this parser (%d)"
                                               % (lag, LAG_EXPECTED[key])))
     memres = resps[len(reqs):]
